@@ -275,7 +275,12 @@ func runC06(c *fw.Case) (o fw.Outcome) {
 			m.SecurityHeader = nas.SecurityHeader{ProtocolDiscriminator: nasMessage.Epd5GSMobilityManagementMessage, SecurityHeaderType: sht}
 			out, err = tglib.NASEncode(ue, m, withCtx, newCtx)
 		} else {
-			out, err = tglib.EncodeNasPduWithSecurity(ue, append([]byte(nil), plain...), sht, withCtx, newCtx)
+			pview, pdmg := guarded(r, plain)
+			out, err = tglib.EncodeNasPduWithSecurity(ue, pview, sht, withCtx, newCtx)
+			if d := pdmg(false); d != "" {
+				o.Fail("plain-buffer-written", "EncodeNasPduWithSecurity step %d (%s): %s", s, kind, d)
+				return
+			}
 		}
 		if err != nil {
 			o.Fail("protect-error", "step %d (%s, header type %d): %v", s, kind, sht, err)
